@@ -72,41 +72,7 @@ func runC06(c *eng.Ctx) {
 	if nrec != 1 {
 		c.Problem("R1", "expected one recursive call in reconcile, found %d", nrec)
 	}
-	// Joinable is used whenever any of the three maps is non-empty: the phi
-	// selecting the prefix takes "" only when all three length tests failed.
-	for _, call := range eng.CallsNamed(rec, "synchronization/core/fastpath.Joinable") {
-		g := eng.Guards(call)
-		_ = g
-		// The block computing Joinable is entered from three tests; its
-		// complement (prefix "") must carry all three `len(...) > 0` false.
-		joinBlk := call.Block()
-		tests := map[string]bool{}
-		for _, p := range joinBlk.Preds {
-			if iff, ok := p.Instrs[len(p.Instrs)-1].(*ssa.If); ok {
-				tests[eng.Render(iff.Cond)] = true
-			}
-		}
-		want := []string{"p2", "p3", "p4"}
-		all := true
-		var missing []string
-		for _, w := range want {
-			found := false
-			for t := range tests {
-				if strings.Contains(t, "GetContents("+w+")") && strings.HasSuffix(t, " > 0)") {
-					found = true
-				}
-				// ancestor contents may be overridden to nil after an ancestor change
-				if w == "p2" && strings.Contains(t, "GetContents(p2)") {
-					found = true
-				}
-			}
-			if !found {
-				all = false
-				missing = append(missing, w)
-			}
-		}
-		c.Check("R1", "prefix-when-any-contents", call.Pos(), all, "the child prefix is computed when ancestor, alpha or beta has contents", fmt.Sprintf("tests=%v missing=%v", keysOf(tests), missing))
-	}
+	c06PrefixRule(c, "R1", rec)
 	c.Floor("R1", 6)
 
 	// R2: at most one action per handler path; reconcile emits only ancestor changes.
@@ -196,4 +162,44 @@ func nonEmptyOnPath(p eng.Path, v ssa.Value) (bool, string) {
 		}
 	}
 	return false, "no non-emptiness fact for " + r + " among: " + atomsOf(p)
+}
+
+// c06PrefixRule decides that child paths are prefixed whenever any of the three
+// content maps is non-empty (shared with C04).
+func c06PrefixRule(c *eng.Ctx, rule string, rec *ssa.Function) {
+	// Joinable is used whenever any of the three maps is non-empty: the phi
+	// selecting the prefix takes "" only when all three length tests failed.
+	for _, call := range eng.CallsNamed(rec, "synchronization/core/fastpath.Joinable") {
+		g := eng.Guards(call)
+		_ = g
+		// The block computing Joinable is entered from three tests; its
+		// complement (prefix "") must carry all three `len(...) > 0` false.
+		joinBlk := call.Block()
+		tests := map[string]bool{}
+		for _, p := range joinBlk.Preds {
+			if iff, ok := p.Instrs[len(p.Instrs)-1].(*ssa.If); ok {
+				tests[eng.Render(iff.Cond)] = true
+			}
+		}
+		want := []string{"p2", "p3", "p4"}
+		all := true
+		var missing []string
+		for _, w := range want {
+			found := false
+			for t := range tests {
+				if strings.Contains(t, "GetContents("+w+")") && strings.HasSuffix(t, " > 0)") {
+					found = true
+				}
+				// ancestor contents may be overridden to nil after an ancestor change
+				if w == "p2" && strings.Contains(t, "GetContents(p2)") {
+					found = true
+				}
+			}
+			if !found {
+				all = false
+				missing = append(missing, w)
+			}
+		}
+		c.Check(rule, "prefix-when-any-contents", call.Pos(), all, "the child prefix is computed when ancestor, alpha or beta has contents", fmt.Sprintf("tests=%v missing=%v", keysOf(tests), missing))
+	}
 }
